@@ -1,7 +1,7 @@
 #!/bin/sh
-# regression over all confirmed seeded changes: each against the quick check of its own property
+# regression over all confirmed seeded changes: each against the quick check of its own property.
+# VERIF_ROOT (default /verif) selects the copy of the machinery to run (a snapshot lets /verif be edited meanwhile);
+# JOBS (default 1) runs that many evaluations side by side.
 tier=${1:-quick}
-for d in /verif/seeded/*/; do
-  id=$(basename $d); p=$(echo $id | cut -c1-3)
-  echo "$id: $(/verif/tools/evalmut.sh $d $p $tier 2>&1 | tr '\n' ' ' | cut -c1-160)"
-done
+R=${VERIF_ROOT:-/verif}
+ls -d $R/seeded/*/ | xargs -P ${JOBS:-1} -I{} sh -c 'd={}; id=$(basename $d); p=$(echo $id | cut -c1-3); echo "$id: $(VERIF_ROOT='$R' '$R'/tools/evalmut.sh $d $p '$tier' 2>&1 | tr "\n" " " | cut -c1-160)"'
